@@ -155,6 +155,25 @@ def rtCheck (env : JEnv) (top : Bool) (v : Value) (t : Ty) : Bool :=
     | _ => false
   | _ => false
 
+/-! ### "plain decoding mirrors the value's structure": what a plain JSON reader sees in the
+encoder's output for a value against its own placeholder-free type — null for null, the
+same bool / string, the decimal text of the number, an array with one entry per element
+(list, tuple), an object with exactly the value's keys (map, object) -/
+mutual
+def mirrors : Payload → Json → Bool
+  | .null, .null => true
+  | .b x, .bool y => x == y
+  | .s x, .str y => x == y
+  | .n x, .num l => l == Num.textF x
+  | .seq vs, .arr js => mirrorsL vs js
+  | .smap ks vs, .obj ks' js => ks == ks' && mirrorsL vs js
+  | _, _ => false
+def mirrorsL : List Payload → List Json → Bool
+  | [], [] => true
+  | v :: vs, j :: js => mirrors v j && mirrorsL vs js
+  | _, _ => false
+end
+
 /-- the hypothesis list of the round-trip property except "attribute names are normalised"
 (`Ty.namesFixed`, which lives with the C07 lemmas; `rtHyps` in
 `Lemmas/JsonValSpec.lean` is this plus that).  The driver evaluates this part. -/
